@@ -45,6 +45,16 @@ Definition find_lf (s : bytes) : option (bytes * bytes) := split_byte 10 s.
 (* line.rstrip(b"\r"): ALL trailing CRs *)
 Definition rstrip_cr (s : bytes) : bytes := rstrip_by (fun c => c =? 13) s.
 
+(* the length a lax line - complete (before its LF) or still partial - is measured with: one trailing CR
+   belongs to the line terminator and does not count; further trailing CRs are stripped from the value
+   by rstrip_cr but do count (len(line) - line.endswith(b"\r")) *)
+Fixpoint ends_cr (s : bytes) : bool :=
+  match s with
+  | [] => false
+  | c :: s' => match s' with [] => c =? 13 | _ => ends_cr s' end
+  end.
+Definition len1 (s : bytes) : N := if ends_cr s then lenN s - 1 else lenN s.
+
 (* bytes.strip() without argument: ASCII whitespace *)
 Definition is_bws (c : N) : bool := ((9 <=? c) && (c <=? 13)) || (c =? 32).
 Definition strip_bws (s : bytes) : bytes := strip_by is_bws s.
@@ -208,17 +218,14 @@ Definition parse_response (mf : N) (lines : list bytes) : rres rmsg :=
   end.
 
 (* ---------------- payload ---------------- *)
-(* RDataEnd crs: after chunk data, before its line terminator; crs is a GHOST mark kept only while
-   the parser waits for input: "an optional CR was already skipped in the read that just ended"
-   (Python keeps no such mark: the next read skips one CR again): `unpark`, applied when the next
-   read starts.  After the last-chunk line nothing is skipped (repair eb945bb): a CR there belongs to
-   the first trailer line, whose rstrip(CR) makes "CR LF" the empty line. *)
-Inductive rcstate := RSize | RData (rem : N) | RDataEnd (crs : bool) | RTrailers.
+(* RDataEnd: after chunk data, before its line terminator (one optional CR, then LF).  A CR that is
+   the last byte of a read is kept in the chunk tail and looked at again together with the next read
+   (repair of C03-lax-double-cr), so the state does not depend on read boundaries.  After the
+   last-chunk line nothing is skipped (repair eb945bb): a CR there belongs to the first trailer line,
+   whose rstrip(CR) makes "CR LF" the empty line. *)
+Inductive rcstate := RSize | RData (rem : N) | RDataEnd | RTrailers.
 Inductive rpkind := RLength (rem : N) | RChunked (c : rcstate) | RUntilEof.
 Record rpstate := mkRP { rpk : rpkind; rctail : bytes; rtlines : list bytes (* in order *); rmax_trailers : N }.
-
-Definition unpark (c : rcstate) : rcstate :=
-  match c with RDataEnd _ => RDataEnd false | _ => c end.
 
 Record rrec := mkRR {
   rr_msg : rmsg; rr_body : bool (* a real payload stream, not EMPTY_PAYLOAD *);
@@ -273,13 +280,13 @@ Fixpoint rchunked_loop (fuel : nat) (lim : limits) (mt : N) (c : rcstate) (tl : 
         let '(d, rest) := takeN rem chunk in
         let left' := rem - lenN d in
         let evs' := rev_data d evs in
-        if left' =? 0 then rchunked_loop f lim mt (RDataEnd false) tl rest (rev_chunk_end evs')
+        if left' =? 0 then rchunked_loop f lim mt RDataEnd tl rest (rev_chunk_end evs')
         else QNeed (mkRP (RChunked (RData left')) [] tl mt) evs'
-      | RDataEnd _ =>
-        (* lax: one optional CR, then the LF *)
+      | RDataEnd =>
+        (* lax: one optional CR, then the LF; a CR at the very end of the read stays buffered *)
         if a =? 13 then
           match r with
-          | [] => QNeed (mkRP (RChunked (RDataEnd true)) [] tl mt) evs
+          | [] => QNeed (mkRP (RChunked RDataEnd) [13] tl mt) evs
           | b :: rest => if b =? 10 then rchunked_loop f lim mt RSize tl rest evs
                          else QFail ETransferEncoding evs
           end
@@ -290,7 +297,7 @@ Fixpoint rchunked_loop (fuel : nat) (lim : limits) (mt : N) (c : rcstate) (tl : 
         | None => QNeed (mkRP (RChunked RTrailers) chunk tl mt) evs
         | Some (raw, rest) =>
           let line := rstrip_cr raw in
-          if max_field lim <? lenN line then QFail ELineTooLong evs else
+          if max_field lim <? len1 raw then QFail ELineTooLong evs else
           let tl' := tl ++ [line] in
           if mt <? lenN tl' then QFail EBadMessage evs else
           match line with
@@ -312,8 +319,9 @@ Definition rtoo_long (lim : limits) (p : rpstate) : bool :=
     match rctail p, c with
     | [], _ => false
     | _, RData _ => false
-    | t, RTrailers => max_field lim <? lenN t
-    | t, _ => max_line lim <? lenN t
+    | t, RTrailers => max_field lim <? len1 t
+    | t, RDataEnd => max_line lim <? len1 t
+    | t, RSize => max_line lim <? lenN t      (* a lax chunk-size line is measured raw, complete or not *)
     end
   | _ => false
   end.
@@ -329,7 +337,7 @@ Definition rfeed_payload (lim : limits) (p : rpstate) (data : bytes) (evs : racc
   | RChunked c =>
     if rtoo_long lim p then QFail ELineTooLong evs
     else let chunk := rctail p ++ data in
-         rchunked_loop (2 * length chunk + 2) lim (rmax_trailers p) (unpark c) (rtlines p) chunk evs
+         rchunked_loop (2 * length chunk + 2) lim (rmax_trailers p) c (rtlines p) chunk evs
   end.
 
 (* ---------------- HttpParser.feed_data (response instance) ---------------- *)
@@ -429,7 +437,7 @@ Fixpoint rfeed_loop (fuel : nat) (cfg : rcfg) (s : rst) (buf : bytes) (evs : rac
               if rshould_close s then (s, evs, OErr EBadMessage) else
               let line := rstrip_cr raw in
               let limit := match rlines s with [] => max_line lim | _ => max_field lim end in
-              if limit <? lenN line then (s, evs, OErr ELineTooLong) else
+              if limit <? len1 raw then (s, evs, OErr ELineTooLong) else
               let ls := rlines s ++ [line] in
               if max_headers lim <? lenN ls then (s, evs, OErr EBadMessage) else
               match line with
@@ -445,9 +453,9 @@ Fixpoint rfeed_loop (fuel : nat) (cfg : rcfg) (s : rst) (buf : bytes) (evs : rac
               end
             end
           | None =>
-            (* the buffered tail is measured raw: a trailing CR counts *)
+            (* the buffered tail is measured like a complete line: its last CR does not count *)
             let limit := match rlines s with [] => max_line lim | _ => max_field lim end in
-            if limit <? lenN buf then (s, evs, OErr ELineTooLong)
+            if limit <? len1 buf then (s, evs, OErr ELineTooLong)
             else (mkRS (rlines s) buf None (rupgraded s) (rpending_upgrade s) (rshould_close s) (rin_flight s),
                   evs, OOk [])
           end
